@@ -351,6 +351,30 @@ def r12_5(ctx: Ctx, closure: Dict[str, Func]) -> None:
     ctx.ok("R12.5", f"{n_fn} read-closure functions: no member key ({len(keys)} keys) is popped/deleted from a shared dict")
 
 
+def r12_6(ctx: Ctx, rule: str = "R12.6") -> None:
+    """sibling call sites of Worker.extract: the thread/process-per-folder branch re-opens the archive BY NAME (and raises InternalError
+    when the handle has none), so every caller asks for `parallel` only when the archive was not passed as a stream: the argument
+    mentions `_filePassed` (or is the constant False).  _extract does; a sibling that forgets it (testzip) fails on every multi-folder
+    archive opened from BytesIO / a caller's file object."""
+    n = 0
+    for f in ctx.prog.funcs_in("py7zr"):
+        for c in q.calls(f):
+            if "py7zr:Worker.extract" not in shared.targets_of(ctx, f, c):
+                continue
+            n += 1
+            par = next((k.value for k in c.keywords if k.arg == "parallel"), c.args[2] if len(c.args) > 2 else None)
+            if par is None:
+                ctx.fail(rule, f, c, "Worker.extract called without a parallel argument")
+                continue
+            srcs = [par] + list(q.sources_of(f, par, depth=3))
+            ok = (isinstance(par, ast.Constant) and par.value is False) or any(isinstance(x, ast.Attribute) and x.attr == "_filePassed" for e in srcs for x in ast.walk(e))
+            ctx.check(ok, rule, f, c, f"{f.qname}: parallel only for archives opened by name",
+                      f"{f.qname} asks Worker.extract for parallel folders without excluding archives passed as a stream (`parallel={norm(par)}`): the parallel branch "
+                      "needs the file NAME and raises InternalError('Caught unknown variable status error') for every multi-folder archive opened from BytesIO or a file object",
+                      construct=f"parallel without _filePassed in {f.name}")
+    ctx.floor(rule, n, 2, "Worker.extract call sites")
+
+
 def run(ctx: Ctx) -> None:
     from . import c06 as _c06x
     _c06x.dispatch_forwards_skip(ctx, "R12.4")
@@ -360,3 +384,4 @@ def run(ctx: Ctx) -> None:
     r12_2(ctx, closure)
     r12_3(ctx)
     r12_5(ctx, closure)
+    r12_6(ctx)
